@@ -148,7 +148,16 @@ def replayOne (r : WalRec) (s : Store) : Store × Option String × Bool :=
     if r.lsn ≤ nodeLSN node then (s1, none, false)
     else if r.op == c_OpInsert then
       match insertKey ⟨nodeOff node⟩ r.cell r.lsn r.val s1 with
-      | .ok _ s2 => ({ s2 with hdr := { s2.hdr with lastKey := max s2.hdr.lastKey r.cell } }, none, false)
+      | .ok bt s2 =>
+        let s3 := { s2 with hdr := { s2.hdr with lastKey := max s2.hdr.lastKey r.cell } }
+        if bt.root != nodeOff node then
+          match repointPageTable (nodeOff node) bt.root r.lsn s3 with
+          | .ok _ s4 => (s4, none, false)
+          | .err _ s4 => (s4, some "replay insert: repoint", false)
+          | .panic p => (s3, some ("panic:" ++ p), false)
+          | .unmodelled w => (s3, some ("unmodelled:" ++ w), false)
+          | .fuel => (s3, some "hang", false)
+        else (s3, none, false)
       | .err .keyExists s2 => ({ s2 with hdr := { s2.hdr with lastKey := max s2.hdr.lastKey r.cell } }, none, false)
       | .err _ s2 => (s2, some "replay insert", false)
       | .panic p => (s1, some ("panic:" ++ p), false)
